@@ -186,11 +186,13 @@ def _mk_hook(f):
             return default
         i = c.i
         c.i += 1
-        c.trace.append((f, 3 if c.menu3 else 2))
+        # scalar draws (branch deciders, step lengths) are told apart from vector draws: "random" vs "random*"
+        tag = f if not isinstance(default, np.ndarray) else f + '*'
+        c.trace.append((tag, 3 if c.menu3 else 2))
         w = c.dev.get(i)
         if w is None:
             return default
-        c._check(i, f)
+        c._check(i, tag)
         c.taken += 1
         return alt_value(f, a, k, default, w)
     hook.__name__ = f
